@@ -36,6 +36,54 @@ type Case struct {
 	Count int       `json:"count"`
 	Max   int       `json:"max"`
 	Big   int       `json:"big"` // keep inp out of the event when longer than this
+	Lean  bool      `json:"lean"` // C01: no projection in the event, precise allocation measurement
+}
+
+type DecLean struct {
+	Op    string `json:"op"`
+	Entry string `json:"entry"`
+	Bm    string `json:"bm"`
+	N     int    `json:"n"`
+	Inp   []int  `json:"inp"`
+	Ok    bool   `json:"ok"`
+	Panic bool   `json:"panic"`
+	Pfn   string `json:"pfn"`
+	Alloc int64  `json:"alloc"`
+}
+
+func lean(e Dec) DecLean {
+	return DecLean{e.Op, e.Entry, e.Bm, e.N, e.Inp, e.Ok, e.Panic, e.Pfn, e.Alloc}
+}
+
+// exactAlloc re-runs a decode between two stop-the-world readings (all per-P caches flushed):
+// the cheap counter of runDec lags by up to one allocation-cache refill and may carry
+// the allocations of earlier calls, so a suspicious reading is re-measured precisely.
+func exactAlloc(entry string, inp []byte, bm string) int64 {
+	var cp *[]byte
+	if inp != nil {
+		c := append([]byte{}, inp...)
+		cp = &c
+	}
+	m := nas.NewMessage()
+	var ms0, ms1 runtime.MemStats
+	runtime.ReadMemStats(&ms0)
+	ev.Guard(func() {
+		if entry == "body" {
+			rm.DecodeBody(bm, *cp)
+		} else {
+			decodeEntry(m, entry, cp)
+		}
+	})
+	runtime.ReadMemStats(&ms1)
+	return int64(ms1.TotalAlloc - ms0.TotalAlloc)
+}
+
+func runDecLean(entry string, inp []byte, big int, bm string) DecLean {
+	e := lean(runDec(entry, inp, big, bm, false))
+	if !e.Panic && e.Alloc > (16*int64(e.N)+3*65536+8192)/4 {
+		e.Alloc = exactAlloc(entry, inp, bm)
+	}
+	return e
 }
 
 type Dec struct {
@@ -71,7 +119,7 @@ func decodeEntry(m *nas.Message, entry string, b *[]byte) error {
 	return nil
 }
 
-func runDec(entry string, inp []byte, big int, bm string) Dec {
+func runDec(entry string, inp []byte, big int, bm string, proj bool) Dec {
 	e := Dec{Op: "Dec", Entry: entry, Bm: bm, N: len(inp), Inp: []int{}, Proj: rm.EmptyProj()}
 	if len(inp) <= big {
 		e.Inp = ev.Ints(inp)
@@ -105,7 +153,7 @@ func runDec(entry string, inp []byte, big int, bm string) Dec {
 		return e
 	}
 	e.Ok = err == nil
-	if e.Ok {
+	if e.Ok && proj {
 		if entry == "body" {
 			e.Proj = bp
 		} else {
@@ -423,7 +471,11 @@ func main() {
 			if c.Inp != nil {
 				inp = ev.Bytes(c.Inp)
 			}
-			w.Emit(runDec(c.Entry, inp, c.Big, c.M))
+			if c.Lean {
+				w.Emit(runDecLean(c.Entry, inp, c.Big, c.M))
+			} else {
+				w.Emit(runDec(c.Entry, inp, c.Big, c.M, true))
+			}
 		case "rt":
 			w.Emit(runRT(c))
 		case "re":
@@ -436,7 +488,7 @@ func main() {
 			w.Emit(runEncDisp(c))
 		case "rand": // Count seeded random inputs of length up to Max with the first octets biased to valid headers
 			for k := 0; k < c.Count; k++ {
-				w.Emit(runDec(c.Entry, randInput(rng, c.Max, c.Inp), c.Big, c.M))
+				w.Emit(runDecLean(c.Entry, randInput(rng, c.Max, c.Inp), c.Big, c.M))
 				atomic.StoreInt64(&curStart, time.Now().UnixNano())
 			}
 		default:
